@@ -24,7 +24,7 @@ ASSUMPTIONS = ["Jinja evaluates the SF-core expression fragment as integer arith
                "not compared (count reported as distribution.unsupported_estimate)"]
 
 
-DIRECTED = [S.stream_var_before_definition, S.stream_var_before_definition, S.stream_once_hidden,
+DIRECTED = [S.stream_first_statement_names, S.stream_first_statement_names, S.stream_late_forward_reference, S.stream_var_before_definition, S.stream_var_before_definition, S.stream_once_hidden,
             S.stream_idle_middle, S.stream_shared_nick_forward, S.stream_once_cluster]
 
 
@@ -36,7 +36,7 @@ def generate(rng, tier):
             r, feats = rng.choice(DIRECTED)(rng)
             cases.append({"recipe": r, "reps": rng.choice([2, 3, 3, 4]), "features": feats})
             continue
-        r, feats = S.gen_recipe(rng)
+        r, feats = S.gen_recipe(rng, dict(case_twin=0.06))
         if rng.random() < 0.25 and S.factor_into_macros(rng, r):
             feats = sorted(set(feats) | {"macro"})
         cases.append({"recipe": r, "reps": rng.choice([1, 1, 2, 3]), "features": feats})
